@@ -489,14 +489,27 @@ func c15R6(p *core.Prog, r *core.Report) {
 		}
 	}
 	n := 0
+	isNilStore := func(ins ssa.Instruction) (ssa.Value, bool) {
+		if st, ok := ins.(*ssa.Store); ok {
+			if fa, ok := st.Addr.(*ssa.FieldAddr); ok && core.FieldKeyOf(fa.X.Type(), fa.Field) == rk {
+				if c, ok := st.Val.(*ssa.Const); ok && c.Value == nil {
+					return fa.X, true
+				}
+			}
+		}
+		return nil, false
+	}
 	for _, fn := range p.FuncsIn("server") {
-		if fn.Blocks == nil || clears[fn] {
+		if fn.Blocks == nil {
 			continue
 		}
 		callsClear, reads := false, false
 		for _, b := range fn.Blocks {
 			for _, ins := range b.Instrs {
 				if c := core.StaticCallee(ins); c != nil && clears[c] {
+					callsClear = true
+				}
+				if _, ok := isNilStore(ins); ok {
 					callsClear = true
 				}
 				if u, ok := ins.(*ssa.UnOp); ok {
@@ -521,6 +534,10 @@ func c15R6(p *core.Prog, r *core.Report) {
 					x.Set("cleared", core.Plain(argCanon(x, x.Ins, 0)))
 					return
 				}
+				if base, ok := isNilStore(x.Ins); ok {
+					x.Set("cleared", core.Plain(x.Canon(base).S))
+					return
+				}
 				if u, ok := x.Ins.(*ssa.UnOp); ok {
 					if fa, ok := u.X.(*ssa.FieldAddr); ok && core.FieldKeyOf(fa.X.Type(), fa.Field) == rk {
 						base := core.Plain(x.Canon(fa.X).S)
@@ -542,7 +559,7 @@ func c15R6(p *core.Prog, r *core.Report) {
 		}
 	}
 	if n == 0 {
-		r.Fail("C15/R6: no function both reads recoverData and calls its clearing function")
+		r.Fail("C15/R6: no function both reads recoverData and clears it (directly or through its clearing function)")
 	}
 }
 
